@@ -1,7 +1,7 @@
 (* The specification functions of Spec/SignedPortion.v seen through the list of top-level elements. *)
 From NDN Require Import Base.Prelude Model.TlvVar Spec.SignedPortion Proofs.BytesLemmas.
 Local Open Scope N_scope.
-Set Default Timeout 60.
+Set Default Timeout 900.
 Arguments N.of_nat : simpl never.
 Arguments N.to_nat : simpl never.
 
